@@ -142,48 +142,59 @@ class Engine:
             raise
         return json.loads(line)
 
-    def run(self, req, timeout=20.0, step_timeout=5.0):
-        """Run a `steps` request. Returns the list of step results (same length as steps unless
-        stop_on_error / pre_error). A child death is attributed: the culprit step gets
-        {"st": "abort"|"hang"} after being reproduced twice; for iso requests the other steps are
-        still answered."""
+    def _stream(self, req, timeout):
+        """Send a steps request; collect the per-step lines. Returns (results, death) where death is
+        None, ("pre_error", msg), ("hang", detail) or ("abort", detail)."""
+        if self.p is None or self.p.poll() is not None:
+            self.start()
+        data = (json.dumps(req) + "\n").encode()
         try:
-            resp = self.raw(req, timeout)
-            if "pre_error" in resp:
-                return [{"st": "pre_error", "e": resp["pre_error"]}]
-            return resp["r"]
-        except EngineDied:
-            pass
-        steps = req.get("steps", [])
-        out = []
-        if req.get("iso"):
-            # independent steps: run one by one
-            for s in steps:
-                out.append(self._single(dict(req, steps=[s]), step_timeout))
-            return out
-        # dependent steps: find the shortest dying prefix
-        prefix = []
-        for k in range(1, len(steps) + 1):
-            r = self._single(dict(req, steps=steps[:k]), step_timeout * 2, last_only=False)
-            if isinstance(r, dict):  # died (or pre_error) at step k
-                return prefix + [r]
-            prefix = r
-        return prefix
-
-    def _single(self, req, timeout, last_only=True):
-        kinds = []
-        for _ in range(3):
-            if len(kinds) == 2:
-                break
+            self.p.stdin.write(data)
+            self.p.stdin.flush()
+        except (BrokenPipeError, OSError):
+            d = self._stderr_tail()
+            self.stop()
+            return [], ("abort", d)
+        res = []
+        step_s = req.get("step_ms", 4000) / 1000.0
+        end = time.time() + timeout
+        while True:
             try:
-                if kinds:
-                    self.start()
-                resp = self.raw(req, timeout)
-                if "pre_error" in resp:
-                    return {"st": "pre_error", "e": resp["pre_error"]}
-                return resp["r"][0] if last_only else resp["r"]
+                line = self._readline(min(end, time.time() + step_s + 3.0))
             except EngineDied as e:
-                kinds.append((e.kind, e.detail))
-        if kinds[0][0] != kinds[1][0]:
-            raise MachineryError("irreproducible engine death: %r on %r" % (kinds, req.get("steps")))
-        return {"st": kinds[0][0], "e": kinds[0][1]}
+                d = e.detail
+                self.stop()
+                return res, (e.kind, d)
+            j = json.loads(line)
+            if "st" in j:
+                res.append(j)
+            elif "done" in j:
+                return res, None
+            elif "watchdog" in j:
+                self.stop()
+                return res, ("hang", "step exceeded %d ms" % req.get("step_ms", 4000))
+            elif "pre_error" in j:
+                return res, ("pre_error", j["pre_error"])
+            else:
+                raise MachineryError("unexpected engine line: %r" % line[:200])
+
+    def run(self, req, timeout=30.0):
+        """Run a `steps` request and return the list of step results. The engine answers one flushed
+        line per step, so a death is attributed to the first step without a line: it gets
+        {"st": "abort"|"hang"}; independent (iso) steps after it are still run, in a fresh engine."""
+        steps = list(req.get("steps", []))
+        out = []
+        pending = steps
+        while True:
+            res, death = self._stream(dict(req, steps=pending), timeout)
+            out.extend(res)
+            if death is None:
+                return out
+            if death[0] == "pre_error":
+                return out + [{"st": "pre_error", "e": death[1]}]
+            out.append({"st": death[0], "e": death[1]})
+            if not req.get("iso"):
+                return out
+            pending = pending[len(res) + 1:]
+            if not pending:
+                return out
